@@ -29,6 +29,13 @@ def directive_programs():
         for ch, (w, signed) in PACK.items():
             lo, hi = (-(1 << (8 * w - 1)), (1 << (8 * w - 1)) - 1) if signed else (0, (1 << (8 * w)) - 1)
             out.append(('pack%s%s' % (e, ch), 'pack %s%s, K\nL1:\ndb 1' % (e, ch), [('K', 'const', w, lo, hi, e)]))
+    # network (!) and standard-size native-order (=) prefixes: '!' is big-endian, '=' the byte order of the host
+    host = '<' if __import__('sys').byteorder == 'little' else '>'
+    for pre, e in (('!', '>'), ('=', host)):
+        for ch in 'hHiIqQ':
+            w, signed = PACK[ch]
+            lo, hi = (-(1 << (8 * w - 1)), (1 << (8 * w - 1)) - 1) if signed else (0, (1 << (8 * w)) - 1)
+            out.append(('pack%s%s' % (pre, ch), 'pack %s%s, K\nL1:\ndb 1' % (pre, ch), [('K', 'const', w, lo, hi, e)]))
     for s, w in SEQ.items():
         out.append((s, '%s @A@ @B@ 3\nL1:\ndb 1' % s,
                     [('A', 'marker', w, -(1 << (8 * w - 1)), (1 << (8 * w)) - 1, '<'),
